@@ -1,8 +1,349 @@
-From Coq Require Import ZArith Bool List String Reals.
-From Hy Require Import Base.Num Gen.Consts Gen.ConstsC12 Model.Vector Proofs.VectorProofs.
-Import ListNotations.
+(* C12 - bounded parameter vectors keep their invariants under any history.
+   Statements only; every proof is `exact <lemma>` from Proofs/VectorProofs.v /
+   Proofs/VectorProofsB.v.  The model (Model/Vector.v) transcribes class Vector of
+   data/containers.py; [VXR] is its instance over the extended reals with NaN
+   ([xr]); EPS and the constructor's keyword defaults are re-extracted from the
+   source (Gen/Consts.v, Gen/ConstsC12.v).
 
-Theorem C12_stub : forall {T} (V : VOps T) s name x,
-  snd (set_attr V s name x) = Rejected -> fst (set_attr V s name x) = s.
-Proof. exact @stub_rejected_unchanged. Qed.
-Print Assumptions C12_stub.
+   Vocabulary (Proofs/VectorProofs.v):
+     xle a b          a <= b on the extended reals, false when either is NaN
+     in_bounds an x lo hi   x = NaN and accept_nan, or lo <= x <= hi
+     wf s             lengths agree, names distinct, mins <= maxs (so no NaN
+                      bound), defaults and values in_bounds, check_hitbounds ->
+                      check_bounds, no check_hitbounds -> flag False
+     Inv s            the values clause of wf, in the words of the property
+     frame s s'       names, mins, maxs, defaults and the three flags of s' are those of s
+     reachable s      s = a constructor call (NaN-free bounds) followed by any operations
+     away x b         a finite x is exactly on a finite bound b or >= 1e-6 away from it
+     run V s ops      the state after the operations ops (clone / round trip: continue with the copy) *)
+From Coq Require Import ZArith Bool List String Reals.
+From Hy Require Import Base.Num Gen.Consts Gen.ConstsC12 Model.Vector
+     Proofs.VectorProofs Proofs.VectorProofsB.
+Import ListNotations.
+Open Scope R_scope.
+Open Scope string_scope.
+
+(* ================= 1. values within bounds, NaN only when allowed ================= *)
+
+(* the constructor establishes the invariant whatever it is given (NaN-free bounds) *)
+Theorem C12_constructor_establishes_invariant :
+  forall names defaults mins maxs cb chb an s,
+  vnew VXR names defaults mins maxs cb chb an = Some s ->
+  nonan_opt mins -> nonan_opt maxs ->
+  wf s /\ v_names s = names /\ v_cb s = cb /\ v_chb s = chb /\ v_an s = an /\
+  v_hit s = false /\ v_values s = v_defaults s.
+Proof. exact vnew_wf. Qed.
+Print Assumptions C12_constructor_establishes_invariant.
+
+(* every operation - accepted or rejected, clone and round trip included - preserves it *)
+Theorem C12_every_operation_preserves_invariant : forall s op,
+  wf s -> wf (fst (step VXR s op)).
+Proof. exact step_wf. Qed.
+Print Assumptions C12_every_operation_preserves_invariant.
+
+(* hence after ANY history (any length, any mix of operations) *)
+Theorem C12_values_within_bounds_any_history :
+  forall names defaults mins maxs cb chb an s0 ops,
+  vnew VXR names defaults mins maxs cb chb an = Some s0 ->
+  nonan_opt mins -> nonan_opt maxs ->
+  Inv (run VXR s0 ops).
+Proof. intros names defaults mins maxs cb chb an s0 ops. exact (history_Inv names defaults mins maxs cb chb an s0 ops). Qed.
+Print Assumptions C12_values_within_bounds_any_history.
+
+Theorem C12_reachable_invariant : forall s, reachable s -> wf s /\ Inv s.
+Proof. intros s R. exact (conj (reachable_wf s R) (reachable_Inv s R)). Qed.
+Print Assumptions C12_reachable_invariant.
+
+(* an accepted assignment stores the value itself when it is inside the
+   bounds, else the bound it passed *)
+Theorem C12_stored_value_is_the_clip : forall x lo hi, xle lo hi -> x <> XNan ->
+  (xle lo x /\ xle x hi /\ clip_np VXR x lo hi = x) \/
+  (xltb x lo = true /\ clip_np VXR x lo hi = lo) \/
+  (xltb hi x = true /\ clip_np VXR x lo hi = hi).
+Proof. exact clip_np_spec. Qed.
+Print Assumptions C12_stored_value_is_the_clip.
+
+(* the attribute path (Python min/max) and the whole-vector path (np.clip) store the same value *)
+Theorem C12_both_paths_clip_alike : forall x lo hi, xle lo hi ->
+  clip_py VXR x lo hi = clip_np VXR x lo hi.
+Proof. exact clip_py_eq_np. Qed.
+Print Assumptions C12_both_paths_clip_alike.
+
+(* non-vacuity: a constructor call with finite and infinite bounds, a NaN
+   default, both flags; the state after a clipping assignment is reachable *)
+Example C12_example_constructor :
+  vnew VXR ["a"; "b"] (Some [XFin (1/2); XNan]) (Some [XFin 0; XNinf]) (Some [XFin 1; XPinf])
+       true true true = Some ex0.
+Proof. exact ex0_new. Qed.
+Print Assumptions C12_example_constructor.
+Example C12_example_clipping_step : step VXR ex0 (OSetAttr "a" (XFin 2)) = (ex1, Accepted).
+Proof. exact ex1_step. Qed.
+Print Assumptions C12_example_clipping_step.
+Example C12_example_reachable : reachable ex1 /\ wf ex1.
+Proof. exact (conj ex1_reachable ex1_wf). Qed.
+Print Assumptions C12_example_reachable.
+Example C12_example_facts : v_hit ex1 = true /\ v_chb ex1 = true /\ nx (v_values ex1) 1 = XNan /\
+  index_of "a" (v_names ex0) = Some 0%nat /\ snd (set_attr VXR ex0 "a" (XFin 2)) = Accepted.
+Proof. exact ex1_facts. Qed.
+Print Assumptions C12_example_facts.
+
+(* ================= 2. names, bounds, defaults, flags never change ================= *)
+
+(* assignments of every kind: for EVERY number instance (binary64 included),
+   every state, whatever clone / from_dict do *)
+Theorem C12_assignments_keep_frame : forall {T} (V : VOps T) cl rt s op,
+  is_assign op -> frame s (fst (step_gen V cl rt s op)).
+Proof. exact @assign_frame. Qed.
+Print Assumptions C12_assignments_keep_frame.
+
+(* all operations, any history *)
+Theorem C12_frame_any_history :
+  forall names defaults mins maxs cb chb an s0 ops,
+  vnew VXR names defaults mins maxs cb chb an = Some s0 ->
+  nonan_opt mins -> nonan_opt maxs ->
+  frame s0 (run VXR s0 ops) /\ v_names (run VXR s0 ops) = names /\
+  v_cb (run VXR s0 ops) = cb /\ v_chb (run VXR s0 ops) = chb /\ v_an (run VXR s0 ops) = an.
+Proof. intros names defaults mins maxs cb chb an s0 ops. exact (history_frame names defaults mins maxs cb chb an s0 ops). Qed.
+Print Assumptions C12_frame_any_history.
+
+(* array lengths never change under assignments (any number instance) *)
+Theorem C12_assignments_keep_lengths : forall {T} (V : VOps T) cl rt s op,
+  is_assign op -> lengths_ok s -> lengths_ok (fst (step_gen V cl rt s op)).
+Proof. exact @assign_lengths. Qed.
+Print Assumptions C12_assignments_keep_lengths.
+
+(* ================= 3. a rejected operation leaves the state untouched ================= *)
+
+Theorem C12_rejected_leaves_state : forall {T} (V : VOps T) cl rt s op,
+  snd (step_gen V cl rt s op) = Rejected -> fst (step_gen V cl rt s op) = s.
+Proof. exact @rejected_unchanged. Qed.
+Print Assumptions C12_rejected_leaves_state.
+
+(* exactly which assignments are rejected *)
+Theorem C12_attribute_rejected_iff : forall {T} (V : VOps T) s name x,
+  snd (set_attr V s name x) = Rejected <->
+  (In name (v_names s) /\ vo_isnan V x = true /\ v_an s = false).
+Proof. exact @set_attr_rejected_iff. Qed.
+Print Assumptions C12_attribute_rejected_iff.
+
+Theorem C12_key_rejected_iff : forall {T} (V : VOps T) s key x,
+  snd (set_key V s key x) = Rejected <->
+  (~ In key (v_names s) \/ (vo_isnan V x = true /\ v_an s = false)).
+Proof. exact @set_key_rejected_iff. Qed.
+Print Assumptions C12_key_rejected_iff.
+
+Theorem C12_whole_vector_rejected_iff : forall {T} (V : VOps T) s val,
+  snd (set_all V s val) = Rejected <->
+  (List.length val <> v_nval s \/ (existsb (vo_isnan V) val = true /\ v_an s = false)).
+Proof. exact @set_all_rejected_iff. Qed.
+Print Assumptions C12_whole_vector_rejected_iff.
+
+(* reset is never rejected and restores the defaults *)
+Theorem C12_reset_restores_defaults : forall s, wf s ->
+  reset VXR s = (with_values s (v_defaults s) false, Accepted).
+Proof. exact reset_spec. Qed.
+Print Assumptions C12_reset_restores_defaults.
+
+Example C12_example_rejections : reachable ex2 /\
+  snd (step VXR ex2 (OSetAttr "a" XNan)) = Rejected /\
+  snd (step VXR ex2 (OSetKey "zz" (XFin 0))) = Rejected /\
+  snd (step VXR ex2 (OSetAll [])) = Rejected.
+Proof. exact (conj ex2_reachable ex2_rejects). Qed.
+Print Assumptions C12_example_rejections.
+
+(* an attribute that is not a name of the vector does not concern it; a key
+   that is a name is the attribute assignment (any number instance) *)
+Theorem C12_foreign_attribute_is_ignored : forall {T} (V : VOps T) s name x,
+  ~ In name (v_names s) -> set_attr V s name x = (s, Accepted).
+Proof. exact @set_attr_foreign. Qed.
+Print Assumptions C12_foreign_attribute_is_ignored.
+
+Theorem C12_key_on_known_name_is_attribute : forall {T} (V : VOps T) s key x,
+  In key (v_names s) -> set_key V s key x = set_attr V s key x.
+Proof. exact @set_key_known. Qed.
+Print Assumptions C12_key_on_known_name_is_attribute.
+
+(* ================= 4. the bound-hit flag ================= *)
+
+(* set by attribute / by key: with check_hitbounds the flag is False exactly
+   when the value was stored as given - for EVERY value (no distance condition) *)
+Theorem C12_hit_flag_by_attribute : forall s name x i,
+  wf s -> index_of name (v_names s) = Some i ->
+  snd (set_attr VXR s name x) = Accepted ->
+  let lo := nx (v_mins s) i in let hi := nx (v_maxs s) i in
+  let s' := fst (set_attr VXR s name x) in
+  v_values s' = upd i (clip_np VXR x lo hi) (v_values s) /\
+  nx (v_values s') i = clip_np VXR x lo hi /\
+  (v_chb s = true -> (v_hit s' = false <-> nx (v_values s') i = x)) /\
+  (v_chb s = false -> v_hit s' = false).
+Proof. exact set_attr_spec. Qed.
+Print Assumptions C12_hit_flag_by_attribute.
+
+(* whole-vector assignment (and reset): the test uses bound -/+ EPS; for values
+   on a bound or at least 1e-6 away the flag is False exactly when nothing was clipped *)
+Theorem C12_hit_flag_whole_vector : forall s val,
+  wf s -> snd (set_all VXR s val) = Accepted ->
+  let s' := fst (set_all VXR s val) in
+  List.length val = v_nval s /\
+  v_values s' = map3 (clip_np VXR) val (v_mins s) (v_maxs s) /\
+  (v_chb s = false -> v_hit s' = false) /\
+  ((forall i, (i < v_nval s)%nat ->
+      away (nx val i) (nx (v_mins s) i) /\ away (nx val i) (nx (v_maxs s) i)) ->
+   v_chb s = true -> (v_hit s' = false <-> v_values s' = val)).
+Proof. exact set_all_spec. Qed.
+Print Assumptions C12_hit_flag_whole_vector.
+
+(* the two tests agree on the property's quantifier *)
+Theorem C12_hit_tests_agree : forall x lo hi, xle lo hi -> away x lo -> away x hi ->
+  hit_eps VXR x lo hi = hit_exact VXR x lo hi.
+Proof. exact hit_tests_agree. Qed.
+Print Assumptions C12_hit_tests_agree.
+
+(* without check_hitbounds the flag is False after any history *)
+Theorem C12_no_flag_without_check :
+  forall names defaults mins maxs cb an s0 ops,
+  vnew VXR names defaults mins maxs cb false an = Some s0 ->
+  nonan_opt mins -> nonan_opt maxs ->
+  v_hit (run VXR s0 ops) = false.
+Proof.
+  intros names defaults mins maxs cb an s0 ops H1 H2 H3.
+  exact (history_nohit names defaults mins maxs cb false an s0 ops H1 H2 H3 eq_refl).
+Qed.
+Print Assumptions C12_no_flag_without_check.
+
+Example C12_example_whole_vector : snd (set_all VXR ex0 [XFin 2; XNan]) = Accepted /\
+  (forall i, (i < v_nval ex0)%nat ->
+     away (nx [XFin 2; XNan] i) (nx (v_mins ex0) i) /\ away (nx [XFin 2; XNan] i) (nx (v_maxs ex0) i)).
+Proof. exact ex_set_all. Qed.
+Print Assumptions C12_example_whole_vector.
+
+(* the two write paths agree: an attribute assignment is the whole-vector
+   assignment of the current values with that component replaced (same stored
+   values; same flag for a value in the quantifier) *)
+Theorem C12_write_paths_agree : forall s name x i,
+  wf s -> index_of name (v_names s) = Some i ->
+  snd (set_attr VXR s name x) = Accepted ->
+  snd (set_all VXR s (upd i x (v_values s))) = Accepted /\
+  v_values (fst (set_attr VXR s name x)) = v_values (fst (set_all VXR s (upd i x (v_values s)))) /\
+  (away x (nx (v_mins s) i) -> away x (nx (v_maxs s) i) ->
+   v_hit (fst (set_attr VXR s name x)) = v_hit (fst (set_all VXR s (upd i x (v_values s))))).
+Proof. exact set_attr_is_set_all. Qed.
+Print Assumptions C12_write_paths_agree.
+
+Example C12_example_away : away (XFin 2) (nx (v_mins ex0) 0) /\ away (XFin 2) (nx (v_maxs ex0) 0).
+Proof. exact ex_away. Qed.
+Print Assumptions C12_example_away.
+
+(* assigning the current values back is accepted and only lowers the flag *)
+Theorem C12_reassigning_current_values : forall s, wf s ->
+  set_all VXR s (v_values s) = (with_hit s false, Accepted).
+Proof. exact set_all_current. Qed.
+Print Assumptions C12_reassigning_current_values.
+
+(* ================= 5. clone and dictionary round trip ================= *)
+
+(* repaired code: both reproduce the full state - values, bounds, defaults,
+   names, the three flags AND the hit flag - and are never rejected *)
+Theorem C12_clone_reproduces_state : forall s, wf s -> clone VXR s = Some s.
+Proof. exact clone_id. Qed.
+Print Assumptions C12_clone_reproduces_state.
+
+Theorem C12_dict_roundtrip_reproduces_state : forall s, wf s ->
+  from_dict VXR (to_dict s) = Some s.
+Proof. exact dict_id. Qed.
+Print Assumptions C12_dict_roundtrip_reproduces_state.
+
+Theorem C12_reachable_clone_and_roundtrip : forall s, reachable s ->
+  clone VXR s = Some s /\ from_dict VXR (to_dict s) = Some s.
+Proof. exact reachable_clone_dict. Qed.
+Print Assumptions C12_reachable_clone_and_roundtrip.
+
+(* the round trip is a clone, for every number instance (binary64 included) *)
+Theorem C12_dict_roundtrip_is_clone : forall {T} (V : VOps T) s, lengths_ok s ->
+  from_dict V (to_dict s) = clone V s.
+Proof. exact @from_dict_to_dict_clone. Qed.
+Print Assumptions C12_dict_roundtrip_is_clone.
+
+(* pinned code (before 3f87067, c7b69a2, 32d3102): the statement is false *)
+Theorem C12_clone_reproduces_state_refuted :
+  exists s, reachable s /\ clone_old VXR s <> Some s.
+Proof. exact clone_old_refuted. Qed.
+Print Assumptions C12_clone_reproduces_state_refuted.
+
+Theorem C12_clone_never_rejected_refuted :
+  exists s, reachable s /\ clone_old VXR s = None.
+Proof. exact clone_old_raises_refuted. Qed.
+Print Assumptions C12_clone_never_rejected_refuted.
+
+Theorem C12_clone_of_default_vector_refuted :
+  exists s, vnew_default VXR [] = Some s /\ exists c, clone_old VXR s = Some c /\ v_cb c <> v_cb s.
+Proof. exact clone_old_empty_refuted. Qed.
+Print Assumptions C12_clone_of_default_vector_refuted.
+
+Theorem C12_dict_roundtrip_reproduces_state_refuted :
+  exists s, reachable s /\ from_dict_old VXR (to_dict s) <> Some s.
+Proof. exact from_dict_old_refuted. Qed.
+Print Assumptions C12_dict_roundtrip_reproduces_state_refuted.
+
+(* what the pinned code did instead, on every well-formed vector *)
+Theorem C12_pinned_clone_behaviour : forall s, wf s ->
+  (forall i, (i < v_nval s)%nat -> nx (v_defaults s) i <> XNan /\ nx (v_values s) i <> XNan) ->
+  clone_old VXR s =
+  Some (mkV (v_names s) (v_mins s) (v_maxs s) (v_defaults s) (v_values s) false (v_chb s)
+            VEC_DEFAULT_CHECK_HITBOUNDS VEC_DEFAULT_ACCEPT_NAN).
+Proof. exact clone_old_spec. Qed.
+Print Assumptions C12_pinned_clone_behaviour.
+
+Theorem C12_pinned_from_dict_behaviour : forall s, wf s ->
+  from_dict_old VXR (to_dict s) = Some (with_hit s false).
+Proof. exact from_dict_old_loses_hit. Qed.
+Print Assumptions C12_pinned_from_dict_behaviour.
+
+Example C12_example_nan_free_state : reachable ex2 /\
+  (forall i, (i < v_nval ex2)%nat -> nx (v_defaults ex2) i <> XNan /\ nx (v_values ex2) i <> XNan).
+Proof. exact (conj ex2_reachable ex2_nan_free). Qed.
+Print Assumptions C12_example_nan_free_state.
+
+(* ... and it raised as soon as a default or a value was NaN *)
+Theorem C12_pinned_clone_raises_on_nan : forall s, wf s ->
+  (exists i, (i < v_nval s)%nat /\ (nx (v_defaults s) i = XNan \/ nx (v_values s) i = XNan)) ->
+  clone_old VXR s = None.
+Proof. exact clone_old_nan. Qed.
+Print Assumptions C12_pinned_clone_raises_on_nan.
+
+Example C12_example_nan_state : reachable ex3 /\
+  exists i, (i < v_nval ex3)%nat /\ (nx (v_defaults ex3) i = XNan \/ nx (v_values ex3) i = XNan).
+Proof. exact (conj ex3_reachable ex3_has_nan). Qed.
+Print Assumptions C12_example_nan_state.
+
+(* ================= 6. constructor arguments and the transform tables ================= *)
+
+(* consistent arguments are accepted and stored as given *)
+Theorem C12_constructor_accepts_consistent_arguments :
+  forall names defaults mins maxs cb chb an,
+  let n := List.length names in
+  let em := eff_mins n mins in let eM := eff_maxs n maxs in
+  let ed := eff_defs n defaults em eM in
+  List.length em = n -> List.length eM = n -> List.length ed = n ->
+  NoDup names ->
+  (forall i, (i < n)%nat -> xle (nx em i) (nx eM i)) ->
+  (forall i, (i < n)%nat -> in_bounds an (nx ed i) (nx em i) (nx eM i)) ->
+  (chb = true -> cb = true) ->
+  vnew VXR names defaults mins maxs cb chb an = Some (mkV names em eM ed ed false cb chb an).
+Proof. exact vnew_ok. Qed.
+Print Assumptions C12_constructor_accepts_consistent_arguments.
+
+Theorem C12_default_constructor : forall names, NoDup names ->
+  let n := List.length names in
+  vnew_default VXR names =
+  Some (mkV names (repeat XNinf n) (repeat XPinf n) (repeat (XFin 0) n) (repeat (XFin 0) n) false
+            VEC_DEFAULT_CHECK_BOUNDS VEC_DEFAULT_CHECK_HITBOUNDS VEC_DEFAULT_ACCEPT_NAN).
+Proof. exact vnew_default_ok. Qed.
+Print Assumptions C12_default_constructor.
+
+(* every Vector(...) call of the transform constructors (as extracted from
+   transform.py now) is accepted with its numbers unchanged and gives a
+   well-formed parameter / constant vector *)
+Theorem C12_transform_tables : Forall table_ok TRANSFORM_TABLES_R.
+Proof. exact transform_tables_ok. Qed.
+Print Assumptions C12_transform_tables.
